@@ -17,6 +17,13 @@ func Populate(md protoreflect.MessageDescriptor, depth, variant int, single bool
 	return msg
 }
 
+// PopulateField returns a message in which only field number i (by index) is set.
+func PopulateField(md protoreflect.MessageDescriptor, i int) *dynamicpb.Message {
+	msg := dynamicpb.NewMessage(md)
+	fillOnly(msg, 0, 0, false, i)
+	return msg
+}
+
 // Variants is the number of variants needed to set every field of md at least once.
 func Variants(md protoreflect.MessageDescriptor, single bool) int {
 	n := 1
@@ -110,16 +117,23 @@ func fillWellKnown(m *dynamicpb.Message) bool {
 }
 
 func fill(msg *dynamicpb.Message, depth, variant int, single bool) {
+	fillOnly(msg, depth, variant, single, -1)
+}
+
+func fillOnly(msg *dynamicpb.Message, depth, variant int, single bool, only int) {
 	md := msg.Descriptor()
 	if fillWellKnown(msg) {
 		return
 	}
 	for i := 0; i < md.Fields().Len(); i++ {
 		fd := md.Fields().Get(i)
-		if single && i != variant%md.Fields().Len() {
+		if only >= 0 && i != only {
 			continue
 		}
-		if o := fd.ContainingOneof(); o != nil && !o.IsSynthetic() {
+		if only < 0 && single && i != variant%md.Fields().Len() {
+			continue
+		}
+		if o := fd.ContainingOneof(); only < 0 && o != nil && !o.IsSynthetic() {
 			if o.Fields().Get(variant%o.Fields().Len()).Number() != fd.Number() {
 				continue
 			}
